@@ -36,8 +36,8 @@ CLAIMED = {
    note="Layouts where two same-priority candidates coexist are excluded as the property states. The in-memory Fs normalises paths lexically.",
    design="§3 C13, A.3"),
  "C14": dict(
-   technique="exhaustive enumeration of calls over small universes of lists, indices, maps and strings against reference implementations written from the documentation, plus algebraic laws and module-vs-global agreement",
-   text="About 16k (thorough 24k) calls: every list of length 0-4 (6) in every separator/bracket shape x indices -8..8, non-integers, fuzzy integers and wrongly typed arguments for length/nth/set-nth/index/append/join/zip/list-separator/is-bracketed; 11 maps incl. three nested levels and repeated key names across levels x 7 keys for get/has-key/keys/values/merge/remove/set/deep-merge/deep-remove and their nested-key variants (paths of up to 3 keys); 20 strings over ASCII, combining and astral code points with positions -6..6 (8) for length/slice/index/insert/quote/unquote/case/split; every result compared on inspect() text (error iff reference error); each module function compared with its global alias; 21 algebraic laws.",
+   technique="exhaustive enumeration of calls over small universes of lists, indices, maps and strings against reference implementations written from the documentation, plus exhaustive depth-2 compositions of the built-ins against the composed references, algebraic laws and module-vs-global agreement",
+   text="About 16k (thorough 24k) calls: every list of length 0-4 (6) in every separator/bracket shape x indices -8..8, non-integers, fuzzy integers and wrongly typed arguments for length/nth/set-nth/index/append/join/zip/list-separator/is-bracketed; 11 maps incl. three nested levels and repeated key names across levels x 7 keys for get/has-key/keys/values/merge/remove/set/deep-merge/deep-remove and their nested-key variants (paths of up to 3 keys); 20 strings over ASCII, combining and astral code points with positions -6..6 (8) for length/slice/index/insert/quote/unquote/case/split; every result compared on inspect() text (error iff reference error); each module function compared with its global alias; 21 algebraic laws; about 6k (thorough 8k) depth-2 compositions (14 list producers x 14 consumers, 7 map producers x 9 consumers, 8 string producers x 9 consumers over the same universes) judged against the composed references, so consumers start from values only a built-in can produce.",
    note="Sub-spaces the documentation leaves open are excluded: map.deep-remove through a missing or non-map intermediate key, string.split with an empty separator / empty string / unquoted input.",
    design="§3 C14"),
  "C18": dict(
